@@ -1,0 +1,87 @@
+//go:build verif
+
+// Contracts for the OpenID Connect handlers (checked by /verif/bin/govc; comment-only, never compiled into a normal build).
+package openid
+
+// The ID-token claims and headers of a session are objects owned by the session: the getters return the same
+// object every time (assumption on Session implementations; DefaultSession allocates them lazily once).
+//@ pureiface openid.Session.IDTokenClaims openid.Session.IDTokenHeaders
+
+// ---------------------------------------------------------------- storage (ghost model of the per-code OIDC sessions)
+//@ ghost oidc_exists : map[string]bool
+//@ ghost oidc_req    : map[string]V
+//@ interface OpenIDConnectRequestStorage.CreateOpenIDConnectSession
+//@   modifies oidc_exists, oidc_req, stored, faults, tx_escaped
+//@   ensures tx_escaped == old(tx_escaped) + escapes(ctx, err)
+//@   ensures err == nil ==> oidc_exists == upd(old(oidc_exists), authorizeCode, true) && oidc_req == upd(old(oidc_req), authorizeCode, requester) && stored == upd(old(stored), requester, true) && faults == old(faults)
+//@   ensures err != nil ==> oidc_exists == old(oidc_exists) && oidc_req == old(oidc_req) && stored == old(stored) && faults == old(faults) + 1
+
+// ---------------------------------------------------------------- C14: at_hash / c_hash
+// The hash is the base64url encoding of the left half of the digest of the token, where the digest is SHA-384 for a
+// *384 algorithm, SHA-512 for a *512 algorithm and SHA-256 otherwise (algorithm read from the ID-token header).
+//@ spec func alg_of(h *jwt.Headers) string = unbox(h.Extra["alg"], string)
+//@ spec func alg_sized(h *jwt.Headers) bool = typeis(h.Extra["alg"], string) && len(alg_of(h)) > 2 && atoi_ok(alg_of(h)[2:])
+//@ spec func hash_bits(h *jwt.Headers) int = (alg_sized(h) && atoi(alg_of(h)[2:]) == 384) ? 384 : ((alg_sized(h) && atoi(alg_of(h)[2:]) == 512) ? 512 : 256)
+//@ func (*jwt.Headers).Get
+//@   requires h != nil
+//@   ensures result == h.Extra[key]
+//@ spec func left_half(b []byte) []byte = b[:len(b)/2]
+//@ spec func token_hash(bits int, token string) string = base64.RawURLEncoding.EncodeToString(left_half(digest(bits, bcat(nobytes(), bytes(token)), nobytes())))
+//@ func (*IDTokenHandleHelper).ComputeHash
+//@   requires sess != nil && sess.IDTokenHeaders() != nil
+//@   modifies hash_data, is_hash, hash_alg, buf_data
+//@   ensures [C14.hash-by-algorithm] err == nil && result == token_hash(hash_bits(sess.IDTokenHeaders()), token)
+
+// ---------------------------------------------------------------- C14: ID token generation
+//@ interface jwt.Signer.Generate
+//@ spec func decoded(s jwt.Signer, t string) *jwt.Token
+//@ interface jwt.Signer.Decode
+//@   ensures result == decoded(recv, token)
+//@ func (*jwt.ValidationError).Has
+//@   pure
+//@ func (*jwt.IDTokenClaims).ToMapClaims
+//@   ensures result != nil
+//@ func github.com/ory/go-convenience/stringslice.Unique(i)
+//@   ensures sameset(result, i)
+//@ func github.com/ory/go-convenience/stringslice.Has(items, find)
+//@   pure
+//@   ensures result == insl(items, find)
+
+// GenerateIDToken: the claims object of the session is completed in place and then signed.
+//@ func (DefaultStrategy).GenerateIDToken
+//@   let sess = cast(requester.GetSession(), Session)
+//@   let claims = cast(requester.GetSession(), Session).IDTokenClaims()
+//@   let form = requester.GetRequestForm()
+//@   requires requester != nil && requester.GetClient() != nil && h.Signer != nil && h.Config != nil
+//@   requires implements(requester.GetSession(), Session) ==> claims != nil
+//@   ensures [C14.needs-oidc-session-and-subject] err == nil ==> implements(requester.GetSession(), Session) && claims.Subject != ""
+//@   ensures [C14.aud-names-client] err == nil ==> insl(claims.Audience, requester.GetClient().GetID())
+//@   ensures [C14.nonce-echoed] err == nil && len(formget(form, "nonce")) > 0 ==> claims.Nonce == formget(form, "nonce") && len(claims.Nonce) >= h.Config.GetMinParameterEntropy(ctx)
+//@   ensures [C14.nonce-echoed] err == nil && len(formget(form, "nonce")) == 0 ==> claims.Nonce == old(claims.Nonce)
+//@   ensures [C14.expires-in-future] err == nil ==> claims.ExpiresAt >= old($now) && (old(claims.ExpiresAt) != 0 ==> claims.ExpiresAt == old(claims.ExpiresAt))
+//@   ensures [C14.expires-in-future] err == nil && old(claims.ExpiresAt) == 0 ==> claims.ExpiresAt <= $now + (lifespan == 0 ? defaultExpiryTime : lifespan)
+//@   ensures [C14.subject-issuer-kept] err == nil ==> claims.Subject == old(claims.Subject) && (old(claims.Issuer) != "" ==> claims.Issuer == old(claims.Issuer)) && (old(claims.Issuer) == "" ==> claims.Issuer == h.Config.GetIDTokenIssuer(ctx))
+//@   ensures [C14.max-age] err == nil && formget(form, "grant_type") != "refresh_token" && parse_ok(formget(form, "max_age")) && parse_int(formget(form, "max_age")) > 0 ==> old(claims.AuthTime) != 0 && claims.RequestedAt != 0 && old(claims.AuthTime) + 1000000000 * parse_int(formget(form, "max_age")) >= claims.RequestedAt
+//@   ensures [C14.prompt-rules] err == nil && formget(form, "grant_type") != "refresh_token" && formget(form, "prompt") == "none" ==> old(claims.AuthTime) != 0 && old(claims.AuthTime) <= claims.RequestedAt
+//@   ensures [C14.prompt-rules] err == nil && formget(form, "grant_type") != "refresh_token" && formget(form, "prompt") == "login" ==> old(claims.AuthTime) != 0 && old(claims.AuthTime) >= claims.RequestedAt
+//@   ensures [C14.id-token-hint-subject] err == nil && formget(form, "grant_type") != "refresh_token" && formget(form, "id_token_hint") != "" ==> typeis(decoded(h.Signer, formget(form, "id_token_hint")).Claims["sub"], string) && unbox(decoded(h.Signer, formget(form, "id_token_hint")).Claims["sub"], string) == claims.Subject
+
+// ---------------------------------------------------------------- C13 / C14: prompt, max_age, id_token_hint at the authorization endpoint
+//@ func isWhitelisted
+//@   pure
+//@   ensures [C14.prompt-whitelisted] result <==> (forall j int :: 0 <= j && j < len(items) ==> insl(whiteList, items[j]))
+//@   invariant loop#1 [C14.prompt-whitelisted] $i <= len(items) && (forall j int :: 0 <= j && j < $i ==> insl(whiteList, items[j]))
+
+//@ func (*OpenIDConnectRequestValidator).ValidatePrompt
+//@   let prompts = fosite.RemoveEmpty(strings.Split(formget(req.GetRequestForm(), "prompt"), " "))
+//@   let claims = cast(req.GetSession(), Session).IDTokenClaims()
+//@   let form = req.GetRequestForm()
+//@   requires v != nil && req != nil && req.GetClient() != nil && v.Config != nil && v.Strategy != nil
+//@   requires implements(req.GetSession(), Session) ==> claims != nil
+//@   ensures [C14.needs-oidc-session-and-subject] err == nil ==> implements(req.GetSession(), Session) && claims.Subject != ""
+//@   ensures [C14.prompt-whitelisted] err == nil ==> isWhitelisted(prompts, len(v.Config.GetAllowedPrompts(ctx)) == 0 ? defaultPrompts : v.Config.GetAllowedPrompts(ctx))
+//@   ensures [C14.prompt-rules] err == nil && insl(prompts, "none") ==> len(prompts) == 1 && claims.AuthTime != 0 && claims.AuthTime <= claims.RequestedAt
+//@   ensures [C14.prompt-rules] err == nil && insl(prompts, "login") ==> claims.AuthTime >= claims.RequestedAt
+//@   ensures [C14.max-age] err == nil && parse_ok(formget(form, "max_age")) && parse_int(formget(form, "max_age")) > 0 ==> claims.AuthTime != 0 && claims.RequestedAt != 0 && claims.AuthTime + 1000000000 * parse_int(formget(form, "max_age")) >= claims.RequestedAt
+//@   ensures [C14.id-token-hint-subject] err == nil && formget(form, "id_token_hint") != "" ==> typeis(decoded(v.Strategy, formget(form, "id_token_hint")).Claims["sub"], string) && unbox(decoded(v.Strategy, formget(form, "id_token_hint")).Claims["sub"], string) == claims.Subject
+//@   ensures [C13.public-prompt-none-needs-secure-redirect] err == nil && req.GetClient().IsPublic() && insl(prompts, "none") ==> call(v.Config.GetRedirectSecureChecker(ctx), ctx, req.GetRedirectURI())
